@@ -1076,7 +1076,7 @@ func (em *emitter) emitForRange(node *ast.ForRange) {
 		name := vars[0].(*ast.Identifier).Name
 		indexType = em.typ(vars[0])
 		if node.Assignment.Type == ast.AssignmentDeclaration {
-			index = em.fb.newRegister(reflect.Int)
+			index = em.fb.newRegister(indexType.Kind())
 			if em.varStore.mustBeDeclaredAsIndirect(vars[0].(*ast.Identifier)) {
 				indirectIndex = em.fb.newIndirectRegister()
 				em.fb.emitNew(indexType, -indirectIndex)
@@ -1087,7 +1087,7 @@ func (em *emitter) emitForRange(node *ast.ForRange) {
 		} else if em.fb.declaredInFunc(name) {
 			index = em.fb.scopeLookup(name)
 		} else if i, ok := em.varStore.nonLocalVarIndex(vars[0].(*ast.Identifier)); ok {
-			index = em.fb.newRegister(reflect.Int)
+			index = em.fb.newRegister(indexType.Kind())
 			nonLocalIndex = i
 		} else {
 			panic(internalError("unexpected"))
